@@ -3,6 +3,7 @@
 -/
 import Driver.Util
 import Driver.More
+import Saltpack.Model.Codec
 import Driver.Ext
 
 open Saltpack
@@ -97,8 +98,12 @@ def handle (toks : List String) : String :=
       match mkKeyring secrets ls lp ie lsig with
       | none => bad
       | some kr =>
-        match Wire.splitEnc msg with
-        | .unmodelled w => s!"unmodelled {w.replace " " "_"}"
+        -- bytes the spec-shaped reader (`Wire`) does not cover are read the way go-codec reads them (`Codec`, typed
+        -- decoding incl. its leniencies); only what neither models goes to the decoded-packets route
+        match (match Wire.splitEnc msg with
+               | .ok x => Except.ok x
+               | .unmodelled w => (match Codec.splitEnc msg with | .ok x => .ok x | .error _ => .error w)) with
+        | .error w => s!"unmodelled {w.replace " " "_"}"
         | .ok (hr, ps) =>
           let r := Decrypt.openStream RealPrims valid kr hr ps
           let mki := match r.err, r.mki with
@@ -123,8 +128,12 @@ def handle (toks : List String) : String :=
       match mkKeyring secrets ls lp ie lsig with
       | none => bad
       | some kr =>
-        match Wire.splitSigncrypt msg with
-        | .unmodelled w => s!"unmodelled {w.replace " " "_"}"
+        -- bytes the spec-shaped reader (`Wire`) does not cover are read the way go-codec reads them (`Codec`, typed
+        -- decoding incl. its leniencies); only what neither models goes to the decoded-packets route
+        match (match Wire.splitSigncrypt msg with
+               | .ok x => Except.ok x
+               | .unmodelled w => (match Codec.splitSigncrypt msg with | .ok x => .ok x | .error _ => .error w)) with
+        | .error w => s!"unmodelled {w.replace " " "_"}"
         | .ok (hr, ps) =>
           let r := Signcrypt.openStream RealPrims kr res hr ps
           let snd := match r.err with
@@ -154,8 +163,12 @@ def handle (toks : List String) : String :=
       match mkKeyring [] "none" "nil" "nil" lsig with
       | none => bad
       | some kr =>
-        match Wire.splitSig msg with
-        | .unmodelled w => s!"unmodelled {w.replace " " "_"}"
+        -- bytes the spec-shaped reader (`Wire`) does not cover are read the way go-codec reads them (`Codec`, typed
+        -- decoding incl. its leniencies); only what neither models goes to the decoded-packets route
+        match (match Wire.splitSig msg with
+               | .ok x => Except.ok x
+               | .unmodelled w => (match Codec.splitSig msg with | .ok x => .ok x | .error _ => .error w)) with
+        | .error w => s!"unmodelled {w.replace " " "_"}"
         | .ok (hr, ps) =>
           let r := Sign.verifyStream RealPrims valid kr hr ps
           let snd := match r.err, r.signer with
@@ -169,8 +182,15 @@ def handle (toks : List String) : String :=
       match mkKeyring [] "none" "nil" "nil" lsig with
       | none => bad
       | some kr =>
-        match Wire.splitDetached sigmsg with
-        | .unmodelled w => s!"unmodelled {w.replace " " "_"}"
+        match (match Wire.splitDetached sigmsg with
+               | .ok x => Except.ok x
+               | .unmodelled w =>
+                 (match Codec.splitDetached sigmsg with
+                  | .ok (hr, .sig s) => .ok (hr, Sign.SigRead.sig s)
+                  | .ok (hr, .eof) => .ok (hr, Sign.SigRead.none .unexpectedEOF)
+                  | .ok (hr, .err) => .ok (hr, Sign.SigRead.none .decodeError)
+                  | .error _ => .error w)) with
+        | .error w => s!"unmodelled {w.replace " " "_"}"
         | .ok (hr, sr) =>
           match Sign.verifyDetached RealPrims valid kr hr sr msg with
           | .ok k => s!"res ok signer={toHex k}"
